@@ -6,6 +6,7 @@ CONSTANTS
   AllowEmptyBd = FALSE
   WithReps = TRUE
   Mode = "insert"
+  WithHist = FALSE
 VIEW View
 INVARIANT InvWellFormed
 INVARIANT InvPartition
